@@ -329,6 +329,23 @@ fn main() {
         s5.inc("process_conformance_cases");
         if o2.stdout != o3.stdout || o2.status != o3.status { ctx.violation("binary_pipe_differs", first.join(" "), json!({"kind":"proc"}), format!("piped {:?} direct {:?}", o2.stdout_str(), o3.stdout_str())); }
     }
+    // large documents through the real pipe (the in-process driver hands stdin over as a string and would not see a bounded
+    // reader): custom arrays of 1 000 / 30 000 elements under 10 levels of nesting emit 50 KB / 1.5 MB of pretty RON
+    for n in [1000usize, 30000, 60000] {
+        let custom = format!("{}{}{}", "[".repeat(10), vec!["1"; n].join(","), "]".repeat(10));
+        if custom.len() > 120_000 { continue; }
+        let base = a(&["version", "--source", "none", "--tag-version", "1.2.3", "--custom", &custom]);
+        let mut tz = base.clone(); tz.extend(a(&["--output-format", "zerv"]));
+        let o1 = zv::run_bin(&tz, None, &[], None);
+        s5.inc("process_conformance_cases"); s5.inc("large_documents");
+        if o1.status != 0 { ctx.violation("large_document_not_emitted", format!("custom array of {n} elements"), json!({"kind":"proc-large","n":n}), truncate(&o1.stderr_str(), 200)); continue; }
+        let doc = o1.stdout_str();
+        let o2 = zv::run_bin(&["version", "--source", "stdin", "--output-format", "zerv"], Some(&doc), &[], None);
+        if o2.status != 0 || o2.stdout != o1.stdout { ctx.violation("large_document_does_not_round_trip", format!("custom array of {n} elements ({} bytes of RON)", doc.len()), json!({"kind":"proc-large","n":n}), format!("re-emission exit {} {}", o2.status, truncate(&o2.stderr_str(), 200))); }
+        let mut dr = base.clone(); dr.extend(a(&["--output-format", "pep440"]));
+        let (o3, o4) = (zv::run_bin(&dr, None, &[], None), zv::run_bin(&["version", "--source", "stdin", "--output-format", "pep440"], Some(&doc), &[], None));
+        if o3.stdout != o4.stdout || o3.status != o4.status { ctx.violation("binary_pipe_differs", format!("custom array of {n} elements"), json!({"kind":"proc-large","n":n}), format!("direct {:?} piped exit {} {:?}", o3.stdout_str(), o4.status, truncate(&o4.stderr_str(), 120))); }
+    }
     let all = s1.merge(s2).merge(s3).merge(s4).merge(s5.clone());
     let mut cov = Coverage::default();
     cov.states = objects.len() as u64 + pipe_jobs.len() as u64 + rule_schemas.len() as u64 + mutants.len() as u64;
